@@ -201,6 +201,8 @@ def cpost(po):
         return 'PoIsNone'
     if k == 'raise':
         return f"(PoRaise {po[1]})"
+    if k == 'pre':
+        return f"(PoPre {po[1]})"
     if k == 'yield2':
         return 'PoYield2'
     raise ValueError(po)
@@ -392,7 +394,14 @@ class Impl:
             po = im['post']
             pf = post_fn(po)
             if im['guarded']:
-                if po[0] == 'yield2':
+                if po[0] == 'pre':
+                    def fn(self, cycle):      # the wrapper fails before it asks the rest of the chain
+                        trace.append(i)
+                        if cycle:
+                            return None
+                        raise PYEXC[po[1]]("injected before the yield")
+                        yield                 # noqa  (makes this a generator function)
+                elif po[0] == 'yield2':
                     def fn(self, cycle):
                         trace.append(i)
                         if cycle:
